@@ -370,7 +370,11 @@ def run_check(prop, tier, obligations, encoded_funcs=(), stubs=(), bounds=(), ou
             print(f"note: known finding {f['id']} was not re-confirmed by this run ({why}; tier={tier})")
     exit_code = EXIT_OK
     replay_paths = []
+    shown = set()
     for n, (r, v) in enumerate(violations):
+        if (r["name"]) in shown or len(shown) >= 12:
+            continue  # one line per obligation, at most 12 (all are counted in the evidence file)
+        shown.add(r["name"])
         path = os.path.join(VERIF, "replays", f"{prop}-{n}.json")
         json.dump({"property": prop, "obligation": r["name"], "case": r["case"], "label": v["label"], "values": v["values"], "detail": v["replay_detail"]}, open(path, "w"), indent=1)
         replay_paths.append(path)
